@@ -9,7 +9,9 @@
 #include <stdlib.h>
 #include "vfile.h"
 #include "vprintf.h"
+#ifndef CF_R
 #define CF_R 1
+#endif
 #ifndef CF_L
 #define CF_L 5
 #endif
@@ -70,13 +72,22 @@ static unsigned char src_byte(unsigned long long hexaddr)
 {
   /* hex address -> source address: undo relocation and relative addressing */
   unsigned long long a = hexaddr - (unsigned long long)(long long)(LongInt)in_relocate + (in_reladr ? in_start : 0);
+#if CF_R > 1
+  if (a >= in_rstart[1] && a - in_rstart[1] < in_rlen[1]) return in_rdata[CF_L + ((a - in_rstart[1]) & 7)];
+#endif
   return in_rdata[(a - in_rstart[0]) & 7];
 }
+#if CF_R > 1
+static unsigned long long exp_first2, exp_last2; static int exp_any2;
+#define IN_EXP(h) ((exp_any && (h) >= exp_first && (h) <= exp_last) || (exp_any2 && (h) >= exp_first2 && (h) <= exp_last2))
+#else
+#define IN_EXP(h) (exp_any && (h) >= exp_first && (h) <= exp_last)
+#endif
 
 static void data_byte(unsigned long long hexaddr, unsigned char v)
 {
-  CHECK(exp_any && hexaddr >= exp_first && hexaddr <= exp_last, "decoded address lies in the selected (clipped, relocated) range");
-  if (exp_any && hexaddr >= exp_first && hexaddr <= exp_last)
+  CHECK(IN_EXP(hexaddr), "decoded address lies in the selected (clipped, relocated) range");
+  if (IN_EXP(hexaddr))
     CHECK(v == src_byte(hexaddr), "decoded byte = source record byte at the decoded address");
   if (next_addr >= 0) CHECK((long long)hexaddr == next_addr, "data bytes are emitted in address order without gap or repetition");
   next_addr = (long long)hexaddr + 1;
@@ -157,6 +168,9 @@ static void end_line(void)
     data_lines++;
   }
   inside_line = 0; idx = 0; lsum = 0;
+#if CF_R > 1
+  next_addr = -1;      /* several records: contiguity is demanded within a line only, the byte count catches repetition */
+#endif
 }
 
 static void nibble(unsigned v)
@@ -206,6 +220,13 @@ void harness(void)
   /* one long-form data record, byte granular, CODE segment */
   in_rkind[0] = 0; in_rgran[0] = 1; in_rseg[0] = SegCode;
   ASSUME(in_rcpu[0] != 0 && in_rlen[0] >= 1 && in_rlen[0] <= CF_L);
+#if CF_R > 1
+  /* second long-form data record of the same CPU, address ranges disjoint (either order); whole address space selected, no relocation */
+  in_rkind[1] = 0; in_rgran[1] = 1; in_rseg[1] = SegCode; in_rcpu[1] = in_rcpu[0];
+  ASSUME(in_rlen[1] >= 1 && in_rlen[1] <= CF_L && in_rstart[1] <= 0x7ffffff0u);
+  ASSUME((unsigned long long)in_rstart[0] + in_rlen[0] <= in_rstart[1] || (unsigned long long)in_rstart[1] + in_rlen[1] <= in_rstart[0]);
+  ASSUME(in_start == 0 && in_stop == 0x7fffffffu && in_relocate == 0 && in_reladr == 0);
+#endif
   cf_build();
   src.kind = VF_READ; src.data = cf_buf; src.size = cf_size; src.cap = CF_CAP;
   targ.kind = VF_WIT; targ.wit_off = -1;
@@ -241,17 +262,33 @@ void harness(void)
     exp_first = (unsigned long long)((long long)s + off); exp_last = (unsigned long long)((long long)e + off);
   }
 
+#if CF_R > 1
+  exp_any2 = 1; exp_first2 = in_rstart[1]; exp_last2 = (unsigned long long)in_rstart[1] + in_rlen[1] - 1;
+#if FMTN == 2 || FMTN == 5
+  ASSUME(exp_last2 <= 0xffff);
+#elif FMTN == 3
+  ASSUME(exp_last2 <= 0xfffff);
+#endif
+#endif
   ProcessFile(srcname, 0);
 
   CHECK(vp_unmodelled == 0 && syntax_err == 0, "output is made of well-formed records");
   CHECK(!inside_line, "the last record is terminated by a newline");
+#if CF_R > 1
+  CHECK(data_bytes == (unsigned long)in_rlen[0] + in_rlen[1], "every byte of both records is emitted exactly once, nothing else");
+  if (in_rstart[1] < in_rstart[0]) WITNESS("second record lies below the first");
+  if ((in_rstart[0] >> 16) != ((in_rstart[0] + in_rlen[0] - 1) >> 16) && (in_rstart[1] >> 16) == (in_rstart[0] >> 16)) WITNESS("first record crosses a 64K boundary, second starts in the first one's bank");
+#else
   CHECK(data_bytes == (exp_any ? (unsigned long)(e - s + 1) : 0), "every selected byte is emitted exactly once, nothing else");
+#endif
   if (s5_seen) { CHECK(s5_count == data_lines, "Motorola S5: count of data records");
 #if FMTN == 1
     WITNESS("S5 record");
 #endif
   }
   if (exp_any && data_lines >= 2) WITNESS("more than one data line");
+#if CF_R == 1
   if (!exp_any) WITNESS("record clipped away");
+#endif
   WITNESS("end");
 }
